@@ -18,8 +18,8 @@ RULE = ('Kekule and aromatic molecules / reactions from corpus, curated list and
         'coordinate and aromatic bonds, sparse atom numbers, stereo with RDKit 2D coordinates incl. pseudo-asymmetric chains and rings; no explicit H on stereocentres) x '
         '{SDF V2000, SDF V3000, RDF V2000, RDF V3000, MRV} x {molecule, reaction}; titles and metadata over printable text '
         '(multi-line values, < > & quotes, lines starting with letters of $DATUM); RDKit-written V2000 / V3000 blocks; the '
-        "repository's own test files; multi-record files with one record damaged in several ways at every position; "
-        'indexable readers on real files; oracle: field-by-field identity by atom order, parity descriptors for stereo, metadata '
+        "repository's own test files; multi-record files with one record damaged in several ways at every position (a record that lost its end is skipped or returned as written, never as part of its lines); "
+        'indexable readers on real files, also with a damaged record; files written in several writer sessions (append to path / to a shared buffer); oracle: field-by-field identity by atom order, parity descriptors for stereo, metadata '
         "modulo the readers' per-line whitespace normalisation, record sequences by index; monitor: reach counter on the "
         'charge maps; non-trivial = record with charge / isotope / radical / stereo / metadata, distinct by (format, record)')
 ASSUMPTIONS = ['CachedMethods compatibility shim', 'readers are opened with calc_cis_trans=True (configuration of double bonds is '
@@ -29,11 +29,11 @@ FORMATS = ['sdf', 'esdf', 'rdf', 'erdf', 'mrv']
 CONFIG = {
     'quick': {'shards': 16, 'budget_s': 150, 'n_mols': 1400, 'n_rx': 600, 'n_corrupt': 20, 'rounds': 1, 'n_indexed': 1,
               'floors': {'evaluations': 6000, 'distinct_nontrivial': 1500, 'roundtrip.molecule': 3000, 'roundtrip.reaction': 400,
-                         'metadata.values': 2000, 'foreign.rdkit-blocks': 500, 'corrupted.files': 150, 'indexed.records': 300,
+                         'metadata.values': 2000, 'foreign.rdkit-blocks': 500, 'corrupted.files': 150, 'indexed.records': 300, 'indexed.damaged-files': 150, 'sessions.files': 150, 'sessions.path': 40, 'sessions.buffer': 20,
                          'charge-codes-seen': 9, 'stereo.labels-compared': 1000, 'repo-files.records': 100}},
     'thorough': {'shards': 16, 'budget_s': 1800, 'n_mols': 4200, 'n_rx': 8000, 'n_corrupt': 400, 'rounds': 3, 'n_indexed': 10,
                  'floors': {'evaluations': 60000, 'distinct_nontrivial': 10000, 'roundtrip.molecule': 30000, 'roundtrip.reaction': 5000,
-                            'metadata.values': 20000, 'foreign.rdkit-blocks': 4000, 'corrupted.files': 2000, 'indexed.records': 3000,
+                            'metadata.values': 20000, 'foreign.rdkit-blocks': 4000, 'corrupted.files': 2000, 'indexed.records': 3000, 'indexed.damaged-files': 2000, 'sessions.files': 2000, 'sessions.path': 40, 'sessions.buffer': 20,
                             'charge-codes-seen': 9, 'stereo.labels-compared': 10000, 'repo-files.records': 100}},
 }
 
@@ -443,8 +443,7 @@ def corrupt_record(text, how, rng):
     return '\n'.join(lines)
 
 
-def corrupted_file(ctx, mols, fmt, rng):
-    """one damaged record at every position: the others must still be read, in order"""
+def _damaged_text(mols, fmt, rng, kinds=None):
     names = []
     for i, m in enumerate(mols):
         m.name = 'rec%d' % i
@@ -459,16 +458,22 @@ def corrupted_file(ctx, mols, fmt, rng):
     else:
         head = ''
     pos = rng.randrange(len(mols))
-    how = rng.choice(CORRUPTIONS)
+    how = rng.choice(kinds or CORRUPTIONS)
     body = chunks[pos]
     if fmt in ('sdf', 'esdf'):
         rec, tail = body.split('$$$$', 1)
-        damaged = corrupt_record(rec, how, rng) + ('' if corrupt_record(rec, how, rng).endswith('\n') else '\n') + '$$$$' + tail
+        damaged = corrupt_record(rec, how, rng)
+        damaged += ('' if damaged.endswith('\n') else '\n') + '$$$$' + tail
     else:
         damaged = '$MFMT\n' + corrupt_record(body[len('$MFMT\n'):], how, rng)
         if not damaged.endswith('\n'):
             damaged += '\n'
-    text = head + ''.join(chunks[:pos]) + damaged + ''.join(chunks[pos + 1:])
+    return head + ''.join(chunks[:pos]) + damaged + ''.join(chunks[pos + 1:]), names, pos, how
+
+
+def corrupted_file(ctx, mols, fmt, rng):
+    """one damaged record at every position: the others must still be read, in order"""
+    text, names, pos, how = _damaged_text(mols, fmt, rng)
     ctx.evaluations += 1
     ctx.count('corrupted.files')
     w = {'format': fmt, 'src': 'corruption %s at record %d of %d' % (how, pos, len(mols))}
@@ -481,6 +486,17 @@ def corrupted_file(ctx, mols, fmt, rng):
     want = [n for i, n in enumerate(names) if i != pos]
     if [n for n in got_names if n != names[pos]] != want:
         ctx.violation('damaged-record-loses-neighbours/%s/%s' % (fmt, how), '%s: read %r, expected the others %r' % (w['src'], got_names, want), w)
+    elif names[pos] in got_names:
+        ctx.count('corrupted.damaged-record-returned.' + how)
+        if how in ('drop-m-end', 'truncate'):
+            # a connection table that lost its end: either skipped, or (where the container format still delimits the record and
+            # both blocks are complete) returned as the molecule that was written - never as a guess from part of the lines
+            g = got[got_names.index(names[pos])]
+            if mol_fields(g) != mol_fields(mols[pos]):
+                ctx.violation('unterminated-record-returned-as-another-molecule/%s/%s' % (fmt, how),
+                              '%s: record without M  END returned as %s (written %s)' % (w['src'], g, mols[pos]), w)
+    else:
+        ctx.count('corrupted.damaged-record-skipped.' + how)
 
 
 def indexed_access(ctx, mols, fmt, rng, workdir):
@@ -528,6 +544,93 @@ def indexed_access(ctx, mols, fmt, rng, workdir):
             os.remove(path)
         except OSError:
             pass
+
+
+def indexed_damaged(ctx, mols, fmt, rng, workdir):
+    """random access equals sequential reading also when one record of the file on disk is damaged: the records that can be
+    fetched by index are the records sequential reading yields, with the same titles, metadata and atoms"""
+    text, names, pos, how = _damaged_text(mols, fmt, rng, kinds=('drop-m-end', 'truncate', 'drop-line', 'garbage-counts', 'wrong-atom-count',
+                                                                  'letters-in-coordinates'))
+    path = os.path.join(workdir, 'dmg_%d_%s.%s' % (rng.randrange(10 ** 9), fmt, 'sdf' if 'sdf' in fmt else 'rdf'))
+    w = {'format': fmt, 'src': 'indexed access, corruption %s at record %d of %d' % (how, pos, len(mols))}
+    cache = None
+    try:
+        with open(path, 'w') as f:
+            f.write(text)
+        cls = SDFRead if 'sdf' in fmt else RDFRead
+        seq = [(g.name, dict(g.meta), mol_fields(g)) for g in cls(path)]
+        r = cls(path, indexable=True)
+        cache = r._cache_path
+        got = []
+        try:
+            for i in range(len(r._shifts or ())):
+                try:
+                    g = r[i]
+                except Exception:
+                    continue
+                got.append((g.name, dict(g.meta), mol_fields(g)))
+        finally:
+            r.close()
+        ctx.evaluations += 1
+        ctx.count('indexed.damaged-files')
+        if got != seq:
+            ctx.violation('indexed-records-differ-from-sequential-in-damaged-file/%s/%s' % (fmt, how),
+                          '%s: by index %r, sequentially %r' % (w['src'], [(x[0], x[1]) for x in got], [(x[0], x[1]) for x in seq]), w)
+    except Exception as e:
+        ctx.violation('indexed-access-raises/%s/%s' % (fmt, type(e).__name__), '%s: %r' % (w['src'], e), w)
+    finally:
+        for p in (path, cache):
+            try:
+                p and os.remove(p)
+            except OSError:
+                pass
+
+
+def appended_sessions(ctx, mols, fmt, rng, workdir):
+    """one file written in several writer sessions (path re-opened with append=True, or one buffer handed to a second writer with
+    append=True): reading it back gives every record once, in order, with its title, metadata and atoms"""
+    cls = {'sdf': SDFWrite, 'esdf': ESDFWrite, 'rdf': RDFWrite, 'erdf': ERDFWrite}[fmt]
+    for i, m in enumerate(mols):
+        m.name = 'rec%d' % i
+        m._meta = {'idx': str(i), 'yield': str(rng.randrange(100))} if rng.random() < .8 else {}
+    cuts = sorted(rng.sample(range(1, len(mols)), min(rng.choice((1, 2)), len(mols) - 1)))
+    parts = [mols[a:b] for a, b in zip([0] + cuts, cuts + [len(mols)])]
+    mode = rng.choice(('path', 'path', 'path-first-session-appends-to-new-file', 'buffer'))
+    w = {'format': fmt, 'src': 'sessions %s, records per session %s' % (mode, [len(x) for x in parts])}
+    path = os.path.join(workdir, 'app_%d_%s.%s' % (rng.randrange(10 ** 9), fmt, 'sdf' if 'sdf' in fmt else 'rdf'))
+    try:
+        if mode == 'buffer':
+            buf = io.StringIO()
+            for k, part in enumerate(parts):
+                wr = cls(buf, append=k > 0)
+                for m in part:
+                    wr.write(m)
+            text = buf.getvalue()
+        else:
+            for k, part in enumerate(parts):
+                with cls(path, append=k > 0 or mode != 'path') as wr:
+                    for m in part:
+                        wr.write(m)
+            text = open(path).read()
+        got = read_records(fmt, text)
+    except Exception as e:
+        ctx.violation('appended-file-io-raises/%s/%s' % (fmt, type(e).__name__), '%s: %r' % (w['src'], e), w)
+        return
+    finally:
+        try:
+            os.remove(path)
+        except OSError:
+            pass
+    ctx.evaluations += 1
+    ctx.count('sessions.files')
+    ctx.count('sessions.' + mode)
+    a = [(g.name, {k: norm_meta_value(v) for k, v in g.meta.items()}, mol_fields(g)) for g in got]
+    b = [(m.name, {k: norm_meta_value(v) for k, v in m.meta.items()}, mol_fields(m)) for m in mols]
+    if a != b:
+        bad = next((i for i, (x, y) in enumerate(zip(a, b)) if x != y), min(len(a), len(b)))
+        ctx.violation('file-written-in-sessions-reads-differently/%s/%s' % (fmt, 'buffer' if mode == 'buffer' else 'path'),
+                      '%s: %d records read, %d written; first difference at record %d: %r vs %r'
+                      % (w['src'], len(a), len(b), bad, a[bad][:2] if bad < len(a) else None, b[bad][:2] if bad < len(b) else None), w)
 
 
 def repo_files(ctx, rng):
@@ -621,6 +724,15 @@ def worker(ctx):
                     G._fix_slots(m)
                     m._meta = {'k': 'v'}
                 indexed_access(ctx, mols, fmt, rng, workdir)
+            for k in range(cfg['n_corrupt']):
+                mols = [m.copy() for m in rng.sample(pool, min(5, len(pool)))]
+                for m in mols:
+                    G._fix_slots(m)
+                indexed_damaged(ctx, mols, ('sdf', 'esdf', 'rdf', 'erdf')[k % 4], rng, workdir)
+                mols = [m.copy() for m in rng.sample(pool, min(5, len(pool)))]
+                for m in mols:
+                    G._fix_slots(m)
+                appended_sessions(ctx, mols, ('rdf', 'erdf', 'sdf', 'esdf')[k % 4], rng, workdir)
     finally:
         import shutil
         shutil.rmtree(workdir, ignore_errors=True)
